@@ -35,7 +35,7 @@ def main():
         })
     man = {
         "version": 1,
-        "setup_cmd": "/venv/bin/python -m mc.build",
+        "setup_cmd": "/venv/bin/python -m mc.build && /venv/bin/python -m mc.specpq.selftest",
         "hooks": {
             "guard": "FASTPARQUET_VERIF",
             "enable": "no source hooks are needed: checks drive public parameters (open_with/mkdirs, "
